@@ -116,7 +116,8 @@ def nodeAppend : Handler Build :=
     let cur := ret.toNat
     if cur &&& 0xf == 0 then some b
     else if cur == Flag.sectEnd then
-      if prev &&& Flag.sectEnd != 0 then
+      -- the previous operation was anything but the start of this very section: one level up
+      if prev != 0 && prev &&& 3 != Flag.section_ then
         (if b.depth == 0 then none else some { b with depth := b.depth - 1 })
       else some b
     else
@@ -127,7 +128,7 @@ def nodeAppend : Handler Build :=
       match name, val with
       | some n, some v =>
         let t := Tree.node n v []
-        if prev != 0 && prev &&& Flag.sectEnd == 0 then
+        if prev &&& 3 == Flag.section_ then
           -- previous element was a section start: first child of the current node
           some { forest := appendAt b.depth b.forest t, depth := b.depth + 1 }
         else if b.depth == 0 then none   -- would become a sibling of the local root: not reachable, see notes
